@@ -67,6 +67,7 @@ fn gen_frame(len: usize, seed: usize) -> Vec<u8> {
 
 pub fn judge(case: &Case, acc: &mut Acc) {
     acc.validated += 1;
+    let _ambient = crate::ambient::scope();
     // new() and Default::default() are the same empty buffer
     let mut buf = if case.text.len() % 2 == 0 { TcpBuffer::new() } else { TcpBuffer::default() };
     let mut pushed: Vec<u8> = Vec::new();
@@ -147,6 +148,9 @@ pub fn judge(case: &Case, acc: &mut Acc) {
                 }
                 pulled += 1;
             }
+        } else if let Some(secs) = op.strip_prefix("T:") {
+            // the process clock (monotonic and wall) is this many seconds further on from here
+            crate::ambient::clock_advance(std::time::Duration::from_secs(secs.parse().unwrap()));
         } else if op == "L" {
             if one_pull(&mut buf, &pushed, &mut pos, &mut pulled, acc).is_none() {
                 return;
@@ -250,6 +254,22 @@ pub fn run(ctx: &Ctx) -> Report {
                 ops.insert(last, "P:".to_string());
                 e.text = ops;
                 judge_guarded(judge, &e, &mut acc);
+                // the same with the process clock jumping between the chunks (a slow or paused peer;
+                // the buffer has no time parameter, so whatever it did with time it would take from here)
+                if chunks >= 2 && chunks <= 4 {
+                    for secs in crate::ambient::CLOCK_STEPS_S {
+                        let mut e = case.clone();
+                        let mut ops = Vec::with_capacity(e.text.len() * 2);
+                        for (i, o) in e.text.iter().enumerate() {
+                            if i > 0 && (o.starts_with("P:") || o == "D") {
+                                ops.push(format!("T:{secs}"));
+                            }
+                            ops.push(o.clone());
+                        }
+                        e.text = ops;
+                        judge_guarded(judge, &e, &mut acc);
+                    }
+                }
             }
             acc
         })
@@ -420,7 +440,7 @@ pub fn run(ctx: &Ctx) -> Report {
     Report {
         acc,
         exhaustive: true,
-        rule: format!("all sequences of <= 3 frames with lengths from {{0,1,2,3,5}} (distinct counter contents) whose stream is <= {max_stream} bytes x every chunking (all 2^(n-1) split patterns) x pull schedules (per-chunk choice of none / one pull / pull until None then once more: exhaustive up to 5 chunks, 5 patterns above); plus frames of 65535, 65534, 256, 255, 0 bytes split around the length prefix and the frame end; more than 2^32 bytes through one long-lived buffer in frames of 65535 / 1200 bytes, 2*10^7 frames of 37 and of 0 bytes; every frame length 0..=65535 (whole between two small frames; the bare prefix first; split inside the prefix and mid-payload); payloads that are STUN messages or carry the magic cookie at every offset 0..=8 (frames of 4..40 bytes, with following frames; one piece, byte by byte, every two-way split); a ~450 KB stream of 250 frames (lengths from 14 size classes, 0..40000) pushed in chunks of 3 / 97 / 1460 / 4096 / 16384 / 65536 / 100000 bytes under 4 pull policies; evaluations = push/pull calls, distinct_nontrivial = operation sequences"),
+        rule: format!("(each split into 2..=4 chunks also with the process clock - the harness' own clock_gettime - jumping 1 s / 7 s / 61 min / 50 days between the chunks) all sequences of <= 3 frames with lengths from {{0,1,2,3,5}} (distinct counter contents) whose stream is <= {max_stream} bytes x every chunking (all 2^(n-1) split patterns) x pull schedules (per-chunk choice of none / one pull / pull until None then once more: exhaustive up to 5 chunks, 5 patterns above); plus frames of 65535, 65534, 256, 255, 0 bytes split around the length prefix and the frame end; more than 2^32 bytes through one long-lived buffer in frames of 65535 / 1200 bytes, 2*10^7 frames of 37 and of 0 bytes; every frame length 0..=65535 (whole between two small frames; the bare prefix first; split inside the prefix and mid-payload); payloads that are STUN messages or carry the magic cookie at every offset 0..=8 (frames of 4..40 bytes, with following frames; one piece, byte by byte, every two-way split); a ~450 KB stream of 250 frames (lengths from 14 size classes, 0..40000) pushed in chunks of 3 / 97 / 1460 / 4096 / 16384 / 65536 / 100000 bytes under 4 pull policies; evaluations = push/pull calls, distinct_nontrivial = operation sequences"),
         bounds: json!({"frame_sequences": n_streams, "max_stream_bytes": max_stream, "dedup": "none (TcpBuffer's Debug hides its contents)"}),
         assumptions: vec![],
         ..Default::default()
